@@ -5,7 +5,7 @@ import itertools
 from ..core import AnalysisError
 from ..interp import Interpreter, Instance
 from ..terms import (Const, Sym, Op, Ite, Ref, Lin, TRUE, FALSE, NONE, walk, and_, or_, not_, is_const, is_int, subst,
-                     evaluate, CannotEval, sub, add)
+                     evaluate, CannotEval, sub, add, compare)
 from .. import pelx, effects
 from ..pelx import implies, env_str, unsat, DATA, as_int_field, as_slice
 from ..cli import FullMain, PT, MODE_FUNCS, ARGS
@@ -187,7 +187,7 @@ def check_unchecked_access(rep, runs):
                           e.func, e.node, "the decoder tests the remaining length itself (check_range) and can carry on without the bytes: a "
                           "section cut short at this point is decoded as if it were complete", node=e.node)
             if e.kind == "attr_store" and is_stream_obj(I, e.data[0]) and e.data[1] in ("index", "data", "size") and \
-                    not e.func.startswith(DS + "."):
+                    not e.func.startswith(DS + ".") and e.func.startswith("pel.peltool."):
                 n += 1
                 rep.fail(rule, e.func, e.node, "stream .%s is written outside DataStream: the position no longer follows the checked "
                          "reads" % e.data[1], node=e.node)
@@ -215,6 +215,28 @@ def check_loops(rep, runs):
                         w = sub(f[1], f[0])
                         if is_int(w) and w.v >= 3:
                             data_driven = True
+            if data_driven and L.kind == "for" and L.trip is not None:
+                # a trip count that is capped by the amount of input ( min(count field, bytes left // record size) ) cannot
+                # be driven beyond the input by a crafted field
+                def capped(t):
+                    if isinstance(t, Op) and t.op == "min":
+                        return any(not any(as_int_field(y) is not None for y in walk(a)) and
+                                   any(isinstance(y, Op) and y.op == "len" for y in walk(a)) for a in t.args)
+                    if isinstance(t, Op) and t.op in ("rangelen",) and len(t.args) == 3:
+                        # range(a, a + n*k, k): n iterations
+                        try:
+                            span = sub(t.args[1], t.args[0])
+                        except Exception:
+                            return False
+                        return any(capped(y) for y in walk(span))
+                    if isinstance(t, Op) and t.op in ("floordiv", "max"):
+                        return capped(t.args[0])
+                    if isinstance(t, Lin):
+                        return all(capped(x) or not any(as_int_field(y) is not None for y in walk(x)) for x, _ in t.terms) and \
+                            any(capped(x) for x, _ in t.terms)
+                    return False
+                if capped(L.trip):
+                    data_driven = False
             if not data_driven:
                 continue
             seen.add(key)
@@ -243,11 +265,42 @@ def check_loops(rep, runs):
                     if d is not None and is_int(d) and d.v != 0 and L.cond is not None and \
                             any(isinstance(x, Sym) and x.kind == "loopvar" and x.name.endswith(":" + k) for x in walk(L.cond)):
                         ok = True
+                    # the same counter in closed form (the condition was rewritten to  start + i*step ) ...
+                    if d is not None and is_int(d) and d.v != 0 and L.cond is not None and "." not in k and \
+                            any(x == L.idx for x in walk(L.cond)) and \
+                            not any(isinstance(x, Sym) and x.kind == "loopvar" for x in walk(L.cond)):
+                        ok = True
+                    # ... or stepping by a constant on every continuing iteration without a closed form (conditional start value)
+                    lvs_ = [x for x in walk(L.cond) if isinstance(x, Sym) and x.kind == "loopvar" and x.name.endswith(":" + k)] if L.cond is not None else []
+                    if lvs_ and "." not in k:
+                        step_ = nxt.a if isinstance(nxt, Ite) else nxt
+                        try:
+                            dl_ = sub(step_, lvs_[0])
+                        except Exception:
+                            dl_ = None
+                        if dl_ is not None and is_int(dl_) and dl_.v != 0 and (not isinstance(nxt, Ite) or nxt.b == lvs_[0]):
+                            ok = True
                 apps = [e for e in body if e.kind == "append" and rel(e.guard) == TRUE]
                 if apps and L.cond is not None and any(isinstance(x, Op) and x.op in ("count", "len") for x in walk(L.cond)):
                     ok = True
                 if not ok and ast_len_progress(L.node):
                     ok = True
+                if not ok and L.cond is not None:
+                    # the stream position itself is the ranking function: on every iteration that continues, the position
+                    # after it is strictly larger (decided by evaluation over structured samples of the fields involved)
+                    for k, (init, nxt, d, w) in L.carried.items():
+                        if not k.endswith(".index"):
+                            continue
+                        lv_ = [x for x in walk(L.cond) if isinstance(x, Sym) and x.kind == "loopvar" and x.name.endswith(":" + k)]
+                        if not lv_:
+                            continue
+                        cont_ = and_(L.cond, *[not_(s_) for s_ in L.stops])
+                        try:
+                            stuck = pelx.ite(and_(cont_, compare("le", nxt, lv_[0])), Const(1), Const(0))
+                            if pelx.equivalent(stuck, Const(0))[0]:
+                                ok = True
+                        except Exception:
+                            pass
                 if not reads:
                     why = "the loop body performs no checked stream read and advances nothing its condition tests"
             rep.check(ok, rule, "%s:%s every continuing iteration makes progress (checked read / counter)" % (L.func.split(".")[-1], key[1]),
